@@ -22,8 +22,10 @@ def load():
     return _prog
 
 
-def run_shape(prog, nr, nt, nsc, dirbc, threads=2):
-    """returns (list of (label, Region), notes). Smoothing shapes only where admissible."""
+def run_shape(prog, nr, nt, nsc, dirbc, threads=2, give_flags=((False, False),)):
+    """returns (list of (label, Region), notes). Smoothing shapes only where admissible.
+    give_flags: cache-flag combinations (besides both-on) under which the give operators are interpreted as well: their
+    uncached branches call into the shared LevelCache / input objects from inside the parallel regions."""
     out = []
     notes = []
     S = tab_ops.Setting(prog, nr, nt, nsc, dirbc, threads=threads)
@@ -39,27 +41,37 @@ def run_shape(prog, nr, nt, nsc, dirbc, threads=2):
             S.cache(cc, cg)
     mark("LevelCache(finest)", n0)
     # residuals
+    def flagsets(cls):
+        return [(True, True)] + (list(give_flags) if "Give" in cls else [])
+
+    def tag(cls, fl):
+        return cls if fl == (True, True) else "%s caches=(%s,%s)" % (cls, fl[0], fl[1])
+
     for cls in ("ResidualGive", "ResidualTake"):
-        n0 = len(dom.regions)
-        S.residual(cls, S.cache(True, True))
-        mark(cls, n0)
+        for fl in flagsets(cls):
+            n0 = len(dom.regions)
+            S.residual(cls, S.cache(*fl))
+            mark(tag(cls, fl), n0)
     # direct solver assembly
     for cls in ("DirectSolverGiveCustomLU", "DirectSolverTakeCustomLU"):
-        n0 = len(dom.regions)
-        obj = opsdom.build_without_body(prog, dom, cls, "DirectSolver", [Cell(S.grid), Cell(S.cache(True, True)), Cell(S.geom), Cell(S.coef), dirbc, threads])
-        S.it.call_function(prog.fn(cls + "::buildSolverMatrix"), obj, [])
-        mark(cls + "::buildSolverMatrix", n0)
+        for fl in flagsets(cls):
+            n0 = len(dom.regions)
+            obj = opsdom.build_without_body(prog, dom, cls, "DirectSolver", [Cell(S.grid), Cell(S.cache(*fl)), Cell(S.geom), Cell(S.coef), dirbc, threads])
+            S.it.call_function(prog.fn(cls + "::buildSolverMatrix"), obj, [])
+            mark(tag(cls, fl) + "::buildSolverMatrix", n0)
     smoothing_ok = nt % 4 == 0 and nsc >= 2 and nr - nsc >= 3
     if smoothing_ok:
         for cls in ("SmootherGive", "SmootherTake"):
-            n0 = len(dom.regions)
-            tab_smoother.Sweep(S, cls, "Smoother", "smoothing", threads=threads)
-            mark(cls, n0)
+            for fl in flagsets(cls):
+                n0 = len(dom.regions)
+                tab_smoother.Sweep(S, cls, "Smoother", "smoothing", threads=threads, flags=fl)
+                mark(tag(cls, fl), n0)
     if smoothing_ok and nsc >= 3:
         for cls in ("ExtrapolatedSmootherGive", "ExtrapolatedSmootherTake"):
-            n0 = len(dom.regions)
-            tab_smoother.Sweep(S, cls, "ExtrapolatedSmoother", "extrapolatedSmoothing", threads=threads, extrapolated=True)
-            mark(cls, n0)
+            for fl in flagsets(cls):
+                n0 = len(dom.regions)
+                tab_smoother.Sweep(S, cls, "ExtrapolatedSmoother", "extrapolatedSmoothing", threads=threads, extrapolated=True, flags=fl)
+                mark(tag(cls, fl), n0)
     # coarse cache + transfers
     if (nr - 1) % 2 == 0 and nt % 2 == 0:
         cg = symdom.coarse_of(S.grid, min(nsc // 2 + 1, (nr + 1) // 2))
